@@ -5,6 +5,7 @@ package vh
 import (
 	"fmt"
 	"math/big"
+	"runtime/debug"
 	"sort"
 	"strings"
 	"time"
@@ -328,6 +329,20 @@ func (m *StoreModel) ReadBattery(s store.Store, ids []store.NodeID, accounts []s
 	bad := func(class, format string, a ...interface{}) {
 		out = append(out, [2]string{class, fmt.Sprintf(format, a...)})
 	}
+	// a getter of the driver under test that panics is a finding about the driver, not a harness fault
+	defer func() {
+		if r := recover(); r != nil {
+			st := string(debug.Stack())
+			at := ""
+			for _, l := range strings.Split(st, "\n") {
+				if strings.Contains(l, "/pool/store/") && strings.Contains(l, ".go:") {
+					at = strings.TrimSpace(l)
+					break
+				}
+			}
+			bad("getter-panicked", "a getter of the driver panicked: %v (%s)", r, at)
+		}
+	}()
 	for _, id := range ids {
 		gn, gerr := s.GetNode(id)
 		mn, merr := m.GetNode(id)
